@@ -201,7 +201,9 @@ class Probe:
                     line = ""
                 if not line:
                     rc = p.wait()
-                    err = p.stderr.read()[-2000:] if p.stderr else ""
+                    full = p.stderr.read() if p.stderr else ""
+                    i = full.find("WARNING: DATA RACE")
+                    err = full[i:i + 2500] if i >= 0 else full[-2000:]
                     r = {"id": s["id"], "pkg": s["pkg"], "crashed": rc, "stderr": err}
                     p = None
                 else:
